@@ -1,6 +1,137 @@
-//! C05 — not built yet.
+//! C05 — Hayson JSON conforms to the Project Haystack JSON encoding in both directions.
+//!
+//! The independent implementation written from the specification is the pair
+//!   reference WRITER  harness/src/jspell.rs (Rust; member order, optional members, number spellings at random)
+//!   reference READER  lean/Hs/Spec/HaysonRead.lean (Lean; looks members up by name; request `C05 read J`)
+//! input: `w <VX value>`          write direction: the reference reader must read serde_json::to_string(v) as v
+//!        `r <seed> <VX value>`   read direction: from_str(jspell(v, seed)) must equal v in every component;
+//!                                the reference reader must read the document as v too; the visitor model
+//!                                (`C05 jdec J`) must agree with the implementation on it
+
 use crate::ctx::{CaseOut, Ctx};
+use crate::gen::{self, Cfg};
+use crate::jspell;
+use crate::jtok;
+use crate::rng::Rng;
+use crate::same;
+use crate::vx;
+use libhaystack::val::*;
 
-pub fn exec(_label: &str, _input: &str, _out: &mut CaseOut) {}
+/// the VX text a reader must produce for `v` (an empty meta is an absent meta; NaN is NaN)
+fn expected(v: &Value) -> String {
+    fn norm(v: &Value) -> Value {
+        match v {
+            Value::List(l) => Value::List(l.iter().map(norm).collect()),
+            Value::Dict(d) => Value::Dict(d.iter().map(|(k, v)| (k.clone(), norm(v))).collect()),
+            Value::Grid(g) => {
+                let nd = |d: &Dict| -> Dict { d.iter().map(|(k, v)| (k.clone(), norm(v))).collect() };
+                Value::Grid(Grid {
+                    meta: g.meta.as_ref().filter(|m| !m.is_empty()).map(nd),
+                    columns: g.columns.iter().map(|c| Column { name: c.name.clone(), meta: c.meta.as_ref().filter(|m| !m.is_empty()).map(nd) }).collect(),
+                    rows: g.rows.iter().map(nd).collect(),
+                    ver: "3.0".into(),
+                })
+            }
+            Value::Number(n) if n.value.is_nan() => Value::Number(Number { value: f64::NAN, unit: n.unit }),
+            // -0.0 and 0.0 are the same real
+            Value::Number(n) if n.value == 0.0 => Value::Number(Number { value: 0.0, unit: n.unit }),
+            Value::Coord(c) => Value::Coord(Coord { lat: c.lat + 0.0, long: c.long + 0.0 }),
+            other => other.clone(),
+        }
+    }
+    vx::show(&norm(v))
+}
 
-pub fn generate(_ctx: &mut Ctx) {}
+pub fn exec(_label: &str, input: &str, out: &mut CaseOut) {
+    let (mode, rest) = input.split_once(' ').unwrap_or((input, ""));
+    match mode {
+        "w" => {
+            let v = match vx::parse(rest) {
+                Some(v) => v,
+                None => return out.fail("harness", "unparsable VX input".into()),
+            };
+            out.nontrivial = true;
+            out.stat(&format!("w:{}", crate::c01::kind_name(&v)));
+            match serde_json::to_string(&v) {
+                Ok(t) => match jtok::parse(&t) {
+                    Some(j) => out.req(format!("C05 read {}", jtok::show_request(&j)), format!("ok {}", expected(&v))),
+                    None => out.fail("not_json", format!("the encoder's output is not JSON: {t}")),
+                },
+                Err(e) => out.fail("enc_err", format!("serde_json::to_string failed on a well-formed value: {e}")),
+            }
+        }
+        "r" => {
+            let (seed, vtxt) = rest.split_once(' ').unwrap_or(("1", ""));
+            let v = match vx::parse(vtxt) {
+                Some(v) => v,
+                None => return out.fail("harness", "unparsable VX input".into()),
+            };
+            out.nontrivial = true;
+            out.stat(&format!("r:{}", crate::c01::kind_name(&v)));
+            let mut rng = Rng::new(seed.parse().unwrap_or(1));
+            let j = jspell::spell(&mut rng, &v);
+            let t = jtok::to_text(&j);
+            out.req(format!("C05 read {}", jtok::show_request(&j)), format!("ok {}", expected(&v)));
+            match serde_json::from_str::<Value>(&t) {
+                Err(e) => {
+                    out.fail("read_rejects", format!("from_str rejects the Hayson document {t}: {e}"));
+                    out.req(format!("C05 jdec {}", jtok::show_request(&j)), "err".into());
+                }
+                Ok(b) => {
+                    if let Some(d) = same::diff(&v, &b, "v") {
+                        out.fail("read_differs", format!("{d}   (document {t})"));
+                    }
+                    out.req(format!("C05 jdec {}", jtok::show_request(&j)), format!("ok {}", vx::show(&b)));
+                }
+            }
+        }
+        _ => out.fail("harness", format!("unknown mode {mode}")),
+    }
+}
+
+pub fn generate(ctx: &mut Ctx) {
+    for v in crate::c01::named_cases() {
+        ctx.case("w:named", &format!("w {}", vx::show(&v)));
+        for k in 0..8 {
+            ctx.case("r:named", &format!("r {} {}", 1000 + k, vx::show(&v)));
+        }
+    }
+    for x in gen::F64_EDGES.iter().copied().chain([f64::NAN, f64::INFINITY, f64::NEG_INFINITY]) {
+        for unit in [None, libhaystack::units::get_unit("m")] {
+            if unit.is_some() && !x.is_finite() {
+                continue;
+            }
+            let v = Value::Number(Number { value: x, unit });
+            ctx.case("w:num", &format!("w {}", vx::show(&v)));
+            for k in 0..4 {
+                ctx.case("r:num", &format!("r {} {}", 3000 + k, vx::show(&v)));
+            }
+        }
+    }
+    let n = ctx.n(2500, 120_000);
+    for i in 0..n {
+        let mut rng = ctx.rng.fork();
+        let cfg = Cfg::wf(if i % 10 == 0 { 5 } else { 3 });
+        let v = if i % 3 == 0 { Value::Grid(gen::grid(&mut rng, &cfg, 0)) } else { gen::value(&mut rng, &cfg) };
+        let vt = vx::show(&v);
+        ctx.case("w:rand", &format!("w {vt}"));
+        let seed = rng.next() % 1_000_000;
+        ctx.case("r:rand", &format!("r {seed} {vt}"));
+        if i % 4 == 0 {
+            ctx.case("r:rand", &format!("r {} {vt}", seed + 1));
+        }
+    }
+    // thorough: all member permutations of objects with <= 5 members are approached by many seeds per value
+    if !ctx.quick() {
+        for i in 0..3000u64 {
+            let mut rng = ctx.rng.fork();
+            let mut cfg = Cfg::wf(2);
+            cfg.max_len = 5;
+            let v = if i % 2 == 0 { Value::Dict(gen::dict(&mut rng, &cfg, 0)) } else { gen::value(&mut rng, &cfg) };
+            let vt = vx::show(&v);
+            for k in 0..24 {
+                ctx.case("r:perm", &format!("r {} {vt}", i * 24 + k));
+            }
+        }
+    }
+}
